@@ -10,6 +10,8 @@ import (
 	"math/big"
 	"testing"
 
+	"github.com/bnb-chain/tss-lib/v2/common"
+	"github.com/bnb-chain/tss-lib/v2/crypto"
 	eckeygen "github.com/bnb-chain/tss-lib/v2/ecdsa/keygen"
 	"github.com/bnb-chain/tss-lib/v2/tss"
 	"pgregory.net/rapid"
@@ -53,16 +55,51 @@ func privKeyOf(data []eckeygen.LocalPartySaveData, keys []*big.Int, t int) *big.
 	return v
 }
 
+// ecSigningSSID reproduces the session id of an ECDSA signing session (generation-side only: it lets the
+// generator reach keys and signer sets whose session id -- a hash passed through big.Int -- is shorter
+// than 32 bytes). If the reproduction ever drifts from the library the class is simply no longer reached.
+func ecSigningSSID(data []eckeygen.LocalPartySaveData, signers []int) []byte {
+	var shareIDs []*big.Int
+	for _, i := range signers {
+		shareIDs = append(shareIDs, data[i].ShareID)
+	}
+	ids := sim.MakeIDs("s", shareIDs)
+	sub := eckeygen.BuildLocalSaveDataSubset(data[signers[0]], ids)
+	p := tss.S256().Params()
+	list := []*big.Int{p.P, p.N, p.B, p.Gx, p.Gy}
+	list = append(list, ids.Keys()...)
+	flat, _ := crypto.FlattenECPoints(sub.BigXj)
+	list = append(list, flat...)
+	list = append(list, sub.NTildej...)
+	list = append(list, sub.H1j...)
+	list = append(list, sub.H2j...)
+	list = append(list, big.NewInt(1), big.NewInt(0))
+	return common.SHA512_256i(list...).Bytes()
+}
+
+// shortSSIDSeed searches dealer seeds derived from k.Seed for a key whose session id for these signers has
+// a leading zero byte (about one key in 256).
+func shortSSIDSeed(k keyChoice, ssid func(seed string) []byte) (string, bool) {
+	for i := 0; i < 4000; i++ {
+		sd := fmt.Sprintf("%s~%d", k.Seed, i)
+		if len(ssid(sd)) < 32 {
+			return sd, true
+		}
+	}
+	return k.Seed, false
+}
+
 type c01Case struct {
-	Key      keyChoice
-	Signers  []int
-	Digest   H
-	DigestC  string
-	FBL      int    // -1 absent, 0, or a length in [len(m),32]
-	Steer    string // "", "r-lead0", "s-lead0", "s-high", "s-half", "s-half+1", "r+s-lead0"
-	SteerSd  int
-	Sched    SchedSpec
-	Refusal  bool
+	ShortSSID bool // dealer keys only: search for a key whose session id has a leading zero byte
+	Key       keyChoice
+	Signers   []int
+	Digest    H
+	DigestC   string
+	FBL       int    // -1 absent, 0, or a length in [len(m),32]
+	Steer     string // "", "r-lead0", "s-lead0", "s-high", "s-half", "s-half+1", "r+s-lead0"
+	SteerSd   int
+	Sched     SchedSpec
+	Refusal   bool
 }
 
 var c01DigestClasses = []string{"0", "1", "q-1", "pow2", "lt2^248", "lt2^128", "rand", "rand"}
@@ -127,6 +164,7 @@ func genC01(t *rapid.T) c01Case {
 		c.FBL = -2 // resolved at run time to a value in [len(m),32]
 	}
 	c.Sched = genSched(t, len(c.Signers), schedNoDup)
+	c.ShortSSID = c.Key.Src == "dealer" && rapid.IntRange(0, 3).Draw(t, "shortssid") == 0
 	return c
 }
 
@@ -211,6 +249,12 @@ func runC01(c c01Case) ev.Outcome {
 	fail := func(sig, f string, a ...interface{}) ev.Outcome {
 		out.Err, out.Sig = fmt.Errorf(f, a...), sig
 		return out
+	}
+	short := false
+	if c.ShortSSID && !c.Refusal && c.Key.Src == "dealer" {
+		c.Key.Seed, short = shortSSIDSeed(c.Key, func(sd string) []byte {
+			return ecSigningSSID(dealKeys(false, c.Key.N, c.Key.T, c.Key.Pattern, sd).EC, c.Signers)
+		})
 	}
 	data, partyKeys, err := c.Key.resolveEC()
 	if err != nil {
@@ -305,6 +349,9 @@ func runC01(c c01Case) ev.Outcome {
 	}
 	if c.Steer != "" {
 		out.Label += " steer=" + c.Steer
+	}
+	if short {
+		out.Label += " ssid<32B"
 	}
 	return out
 }
